@@ -2,7 +2,7 @@
 # usage: seedtest.sh <worktree> <patch.diff> <PID> [tier]   — apply a seeded change in a scratch worktree, run the check
 # against that tree (VERIF_REPO), undo the change. Prints the check's last lines and its exit status.
 wt="$1"; patch="$2"; pid="$3"; tier="${4:-quick}"
-git -C "$wt" checkout -q -- . && git -C "$wt" apply "$patch" || { echo "patch does not apply"; exit 3; }
+git -C "$wt" reset -q --hard && git -C "$wt" apply "$patch" 2>/dev/null || git -C "$wt" apply --3way "$patch" || { echo "patch does not apply"; exit 3; }
 out=$(cd /verif && VERIF_REPO="$wt" ./check "$pid" "$tier" 2>&1); st=$?; echo "$out" | tail -4
-git -C "$wt" checkout -q -- .
+git -C "$wt" reset -q --hard
 echo "check-exit=$st"
